@@ -23,6 +23,14 @@ ValBytes(o) == IF o.w = 0 THEN 4 + StrLen ELSE o.w
 ObjBytes(o) == o.n * ValBytes(o)
 ChunkBytes(objs) == Sum([i \in DOMAIN objs |-> ObjBytes(objs[i])])
 
+\* contiguous truncated chunk of `rem' bytes: leading objects whole while the remainder exceeds their size, the first
+\* short one gets the whole values that fit, the rest nothing (TdmsSegment._compute_final_chunk_lengths)
+RECURSIVE ContigLens(_, _, _)
+ContigLens(objs, i, rem) ==
+  IF i > Len(objs) THEN <<>>
+  ELSE IF rem > ObjBytes(objs[i]) THEN <<objs[i].n>> \o ContigLens(objs, i + 1, rem - ObjBytes(objs[i]))
+  ELSE <<rem \div objs[i].w>> \o [m \in 1..(Len(objs) - i) |-> 0]
+
 \* metadata of a segment that lists every object with a full raw data index and no properties
 ObjMeta(o) == 4 + PathBytes(o.c) + 4 + 16 + (IF o.w = 0 THEN 8 ELSE 0) + 4
 MetaBytes(seg) == IF ~seg.meta THEN 0 ELSE 4 + Sum([i \in DOMAIN seg.objs |-> ObjMeta(seg.objs[i])])
